@@ -45,11 +45,13 @@ pub struct TargetCfg {
     pub fds: usize,
     pub stack_pages_max: u64,
     pub null_sp_threads: usize,
+    /// an additional readable pattern region of this many pages (0: none)
+    pub big_region_pages: u64,
 }
 
 impl Default for TargetCfg {
     fn default() -> Self {
-        TargetCfg { sentinels: 3, max_spinners: 2, heartbeats: 0, sleepers: 0, exiters: 0, names: true, regions: 3, elf_files: 0, fds: 0, stack_pages_max: 8, null_sp_threads: 0 }
+        TargetCfg { sentinels: 3, max_spinners: 2, heartbeats: 0, sleepers: 0, exiters: 0, names: true, regions: 3, elf_files: 0, fds: 0, stack_pages_max: 8, null_sp_threads: 0, big_region_pages: 0 }
     }
 }
 
@@ -126,6 +128,11 @@ pub fn build_target(rng: &mut Rng, cfg: &TargetCfg) -> Result<Scenario, String> 
         if prot & 1 != 0 && prot & 4 != 0 {
             exec_regions.push((r.addr, r.len));
         }
+    }
+    if cfg.big_region_pages > 0 {
+        let i = b.anon(cfg.big_region_pages, 3, 6, Fill::Pattern);
+        let r = &b.spec.regions[i];
+        pattern_regions.push((r.addr, r.len));
     }
     for k in 0..cfg.elf_files {
         let spec = ElfSpec::random(rng);
